@@ -662,7 +662,7 @@ func lexComment(l *lexer) stateFn {
 			n := l.next()
 			for ; n != '\n' && isSpace(n); n = l.next() {
 			}
-			if n == '/' {
+			if n == '/' && strings.HasPrefix(l.input[l.pos:], "/") {
 				// We still have more comment lines
 				continue
 			}
